@@ -56,8 +56,8 @@ func buildGuest(lim wenc.Limits, imported bool) []byte {
 	// growloop(k): local 1 = scratch
 	lp := c().
 		Block(0x40).Loop(0x40).
-		LocalGet(0).Op(0x45).BrIf(1). // i32.eqz
-		I32Const(1).MemoryGrow().I32Const(-1).Op(0x46).BrIf(1). // i32.eq
+		LocalGet(0).Op(0x45).BrIf(1).                            // i32.eqz
+		I32Const(1).MemoryGrow().I32Const(-1).Op(0x46).BrIf(1).  // i32.eq
 		MemorySize().I32Const(16).Op(0x74).I32Const(1).Op(0x6b). // shl, sub
 		I32Const(0xAB).Mem(opI32Store8, 0, 0).
 		LocalGet(0).I32Const(1).Op(0x6b).LocalSet(0).
